@@ -195,7 +195,12 @@ theorem reached_iff (src : Nat → Bool) (v : Nat) :
 
 /-- on an undirected graph (symmetric `edge`) the nodes reached from the sources are exactly the nodes of the
     components that contain a source -/
-theorem reach_iff_component (src : Nat → Bool) (hsym : ∀ u v, edge u v = edge v u) (v : Nat) :
+theorem conn_lt {s v : Nat} (h : Spec.Conn n edge s v) : v < n := by
+  cases h with
+  | refl hs => exact hs
+  | step _ _ hv => exact hv
+
+theorem reach_iff_component (src : Nat → Bool) (hsym : ∀ u v, u < n → v < n → edge u v = edge v u) (v : Nat) :
     Spec.Reach n edge src v ↔ ∃ s, src s = true ∧ Spec.Conn n edge s v := by
   constructor
   · intro h
@@ -207,10 +212,10 @@ theorem reach_iff_component (src : Nat → Bool) (hsym : ∀ u v, edge u v = edg
   · rintro ⟨s, hs, hc⟩
     induction hc with
     | refl hsn => exact Spec.Reach.base hsn hs
-    | step _ he hv ih =>
+    | step hcu he hv ih =>
       rcases he with he | he
       · exact Spec.Reach.step ih he hv
-      · rw [hsym] at he
+      · rw [hsym _ _ hv (conn_lt hcu)] at he
         exact Spec.Reach.step ih he hv
 
 end SkNet.Classify
